@@ -5,7 +5,7 @@ from jsl import Codec, Unsupported, sx, sxl
 
 
 class StepRecord:
-    __slots__ = ("codec", "pre", "trs", "tm", "out", "result", "pre_obj", "action", "micro", "final")
+    __slots__ = ("codec", "pre", "trs", "tm", "out", "result", "pre_obj", "action", "micro", "final", "exc")
 
     def __init__(self, codec, pre, trs, tm, out, result, pre_obj, action, micro=None, final=None):
         self.codec, self.pre, self.trs, self.tm, self.out = codec, pre, trs, tm, out
@@ -43,6 +43,8 @@ class Tracer:
         self.records.append(StepRecord(codec, pre, trs, tm, out, r if self.keep_objects else None,
                                        state if self.keep_objects else None,
                                        action if self.keep_objects else None, list(rec.micro), final))
+        self.records[-1].exc = (type(rec.last_exc).__name__, [str(x) for x in getattr(rec.last_exc, "args", ())] + [str(getattr(rec.last_exc, "message", ""))]) \
+            if (r is None and rec.last_exc is not None) else None
         if r is None:
             if out == "(fuel)":
                 raise jsl.StepBudgetExceeded()
@@ -120,4 +122,28 @@ def monitor_states(records, driver, which=None, stats=None):
             for name, b in zip(CLAUSES, bits):
                 if b != "1" and (which is None or name in which):
                     viol.append((k, pos, name, s))
+    return viol
+
+
+EVENTS = ["pre_release", "setup", "tool_frame", "due", "work", "machine_outage", "machine_release", "dispatch",
+          "transit", "deliver", "transport_release", "stores", "clock", "transit_release"]
+
+
+def monitor_events(records, driver, which=None, stats=None):
+    """Evaluate the extracted event vector on every micro-event (needs tracer.want_pre)."""
+    viol = []
+    for k, r in enumerate(records):
+        driver.set_codec(r.codec)
+        for n, (pre, tr, post) in enumerate(r.micro or []):
+            if pre is None:
+                continue
+            v = driver.ask("EV %s %s %s" % (pre, tr, post))
+            if stats is not None:
+                stats["events"] = stats.get("events", 0) + 1
+            bits = v.strip("()").split()
+            if len(bits) != len(EVENTS):
+                raise RuntimeError("event monitor output: " + v)
+            for name, b in zip(EVENTS, bits):
+                if b != "1" and (which is None or name in which):
+                    viol.append((k, n, name, pre, tr, post))
     return viol
